@@ -491,6 +491,20 @@ class C13(engine.Property):
             op = st.gen.g_trav(rng, view, st.namer)
             if op is None:
                 return None
+            # prefer a universe that is not closed under its members' links,
+            # entered at a member that has a neighbour outside it
+            leaky = []
+            for u in us:
+                members = view.snap[u].get("members", [])
+                for m in members:
+                    outside = [x for l in view.links_of(m) for x in view.ends(l) if x is not None and x != m and x not in members]
+                    if outside:
+                        leaky.append((u, m))
+                        break
+            if leaky and rng.random() < 0.4:
+                op["u"], op["s"] = rng.choice(leaky)
+                if rng.random() < 0.6:
+                    op["fn"] = rng.choice(["bft", "ibft"])
             if "ffv" not in op and rng.random() < 0.6:
                 op["ffv"] = rng.choice(["accept", "even", "dironly"])
             if "ffr" not in op and rng.random() < 0.5:
